@@ -364,7 +364,8 @@ pub fn leaf_cfg(rng: &mut Rng, kind: u64) -> Cfg {
             Cfg::Sdes { padding: pad(rng), chunks }
         }
         5 => {
-            let dl = if rng.chance(1, 8) { rng.below(20) as usize } else if rng.chance(1, 7) { 4 * (55 + rng.below(150)) as usize } else { 4 * rng.below(6) as usize };
+            // rarely a packet around the 64 KiB mark, where the 16-bit length field needs its high byte / every bit
+            let dl = if rng.chance(1, 400) { *rng.pick(&[65528usize, 65532, 65536, 131068, 261880]) } else if rng.chance(1, 8) { rng.below(20) as usize } else if rng.chance(1, 7) { 4 * (55 + rng.below(150)) as usize } else { 4 * rng.below(6) as usize };
             Cfg::Unknown { padding: pad(rng), type_: if rng.chance(1, 2) { 207 + rng.below(40) as u8 } else { rng.byte() }, count: if rng.chance(1, 8) { rng.byte() } else { rng.below(32) as u8 }, data: bytes(rng, dl) }
         }
         _ => {
